@@ -21,7 +21,8 @@ def sh(cmd, cwd=None, timeout=900):
 
 
 def suite(wt):
-    rc, out = sh("make >/dev/null 2>&1; echo MAKE=$?; make -C test test 2>&1", cwd=wt)
+    # private network namespace: the suite's socket test binds a fixed TCP port
+    rc, out = sh("make >/dev/null 2>&1; echo MAKE=$?; unshare -n sh -c 'ip link set lo up; make -C test test' 2>&1", cwd=wt)
     ok_build = "MAKE=0" in out
     passed = out.count("...passed")
     failed = [l for l in out.split("\n") if "...failed" in l and "spif_module_load" not in l]
